@@ -14,8 +14,8 @@ CLAIMS = {
              "the exact result R = floor(a*b/2^f) resp. trunc(a*2^f/b) of layer M (tla/sem/Sem.tla), evaluated by TLC in "
              "exact integer arithmetic. 8-bit layouts: all 18, stratified (quick) or all 65 536 (thorough) operand pairs; "
              "88 layouts of 16..128 bits incl. f=0, f=w, 0/1 integer bits: boundary lattice, correlated and random pairs. "
-             "Design models: limb recombination / long division checked against exact arithmetic (TLC small limbs, "
-             "Apalache 64-bit limbs).",
+             "Plus a light sweep over all 488 wider layouts. Design models: MC_Sem (layer M vs first principles), MulLimbs and "
+             "DivHalf (TLC for every limb tuple at small limb bases, Apalache for all operands at 2^64).",
         technique="TLA+ trace validation with TLC (impl->spec) + TLC/Apalache design models of the limb algorithms",
         design_ref="6/C01"),
     "C02": dict(
@@ -27,7 +27,8 @@ CLAIMS = {
     "C06": dict(
         text="Every value of every 8-bit layout (and lattice+random values of 88 wider layouts) through ceil/floor/round/"
              "round_ties_to_even (5 forms each), round_to_zero, int, frac; TLC compares with the exact integer roundings of "
-             "Sem.tla (FloorK, CeilK, RoundAwayK, RoundEvenK, TruncK) and the policy operators.",
+             "Sem.tla (FloorK, CeilK, RoundAwayK, RoundEvenK, TruncK) and the policy operators; sweep over all layouts. Design model "
+             "MC_Round: the masks and 0/1-integer-bit special cases as coded = exact roundings for every value of 68 layouts.",
         technique="TLA+ trace validation with TLC (impl->spec), exhaustive on the 8-bit types",
         design_ref="6/C06"),
     "C07": dict(
@@ -52,8 +53,10 @@ CLAIMS = {
     "C05": dict(
         text="float->fixed (five forms, both call paths) and fixed->float (five forms) for f32/f64 over 106 layouts: TLC recomputes "
              "round-to-nearest-even on exact integers (FloatToFixR, FixToFloatBits incl. gradual underflow and overflow to infinity) and "
-             "compares bit for bit; non-finite inputs must be rejected as documented.",
-        technique="TLA+ trace validation with TLC (impl->spec), IEEE-754 rounding defined on exact integers in TLA+", design_ref="6/C05"),
+             "compares bit for bit; non-finite inputs must be rejected as documented. Light sweep over all 506 layouts. Design model "
+             "MC_Float: to_float_kind/to_fixed_helper as coded = M on two miniature float formats, every bit pattern.",
+        technique="TLA+ trace validation with TLC (impl->spec), IEEE-754 rounding defined on exact integers in TLA+; TLC design model on "
+                  "miniature float formats", design_ref="6/C05"),
     "C10": dict(
         text="SCALE encode/decode (exact, every short prefix, long input), encoded_size, max_encoded_len, le/be/ne byte views, bits round "
              "trips and the serde struct/sequence forms, validated by TLC against LEBytes(bits mod 2^w, w/8) for every value of the 8-bit "
@@ -71,15 +74,19 @@ CLAIMS = {
              "amount types, Sum/Product, rounding, from_num) on 36 layouts under both build profiles; the trace specification is a "
              "register machine (tla/sem/SemWrap.tla): TLC keeps the registers itself and recomputes every step modulo 2^w from its own "
              "state, so a wrong intermediate is caught at the step that produced it. Panics accepted only for a zero divisor.",
-        technique="TLA+ trace validation with TLC of a stateful register-machine specification (impl->spec), both build profiles",
+        technique="TLA+ trace validation with TLC of a stateful register-machine specification (impl->spec), both build profiles; "
+                  "TLC model checking of the closed machine (MC_WrapVM); TLC-simulated programs replayed (spec->impl)",
         design_ref="6/C18"),
     "C08": dict(
         text="from_str / from_str_binary / _octal / _hex and their saturating_, wrapping_, overflowing_ forms on 106 layouts: tokeniser "
              "strings (all strings up to length 3/5 over a 10-symbol alphabet, 70 malformed/edge strings), decimal tie literals (exact "
              "tie expansions, proper prefixes, +-1 in the last place, hair above/below), random long decimals, exact radix-2^k "
              "expansions with half-digit tails, overflow-edge integer parts, 10 000-digit literals. TLC computes the exact rational of "
-             "the literal and its round-to-nearest-even image (ParseR) in BigInt arithmetic and applies the policies.",
-        technique="TLA+ trace validation with TLC (impl->spec), exact rational parsing semantics in TLA+", design_ref="6/C08"),
+             "the literal and its round-to-nearest-even image (ParseR) in BigInt arithmetic and applies the policies. Tie literals are "
+             "also generated by TLC from the specification (Gen_Ties) and replayed; MC_Parse checks the tokeniser as coded against the "
+             "grammar for every string up to length 5.",
+        technique="TLA+ trace validation with TLC (impl->spec), exact rational parsing semantics in TLA+; TLC-generated literals "
+                  "(spec->impl); TLC design model of the tokeniser", design_ref="6/C08"),
     "C09": dict(
         text="Display, Debug, Binary, Octal, LowerHex, UpperHex with automatic and explicit precision and 14 flag templates: TLC checks "
              "that the unflagged body is the correctly rounded expansion at the digits shown (exact for radix 2^k without precision), "
